@@ -107,13 +107,21 @@ func CheckPostings(r *Report, tag string, seg segment.Segment, m *model.Seg, o P
 		}
 		n := 0
 		var it segment.PostingsIterator
+		var rePL segment.PostingsList // recycled list / iterator objects (prealloc), used for every other request
+		var reIt segment.PostingsIterator
 		for _, t := range terms {
 			if o.MaxTerms > 0 && n >= o.MaxTerms {
 				break
 			}
 			n++
 			hits := m.Post[f][t]
-			pl, err := dict.PostingsList([]byte(t), nil, nil)
+			var prePL segment.PostingsList
+			var preIt segment.PostingsIterator
+			if n%2 == 0 {
+				prePL, preIt = rePL, reIt
+				r.Inc("postings_prealloc_reuse", 1)
+			}
+			pl, err := dict.PostingsList([]byte(t), nil, prePL)
 			if err != nil || pl == nil {
 				r.Fail("pl-err", "%s: PostingsList(%q,%s): %v", tag, f, short([]byte(t)), err)
 				continue
@@ -121,10 +129,20 @@ func CheckPostings(r *Report, tag string, seg segment.Segment, m *model.Seg, o P
 			if pl.Count() != uint64(len(hits)) {
 				r.Fail("pl-count", "%s: field %q term %s Count %d, want %d", tag, f, short([]byte(t)), pl.Count(), len(hits))
 			}
-			it = pl.Iterator(true, true, true, nil)
+			it = pl.Iterator(true, true, true, preIt)
+			rePL, reIt = pl, it
 			where := tag + ": " + f + "/" + short([]byte(t))
 			i := 0
 			for {
+				if i == 1 && n%3 == 0 {
+					// in the middle of this walk: a lookup that misses must be empty and
+					// must not disturb the walk (shared "empty" sentinels stay empty)
+					if mpl, err := dict.PostingsList([]byte("\xfe\xfemiss"), nil, nil); err != nil || mpl == nil || mpl.Count() != 0 {
+						r.Fail("absent-count", "%s: lookup of an absent term during a walk: %v", where, err)
+					} else if mp, err := mpl.Iterator(true, true, true, nil).Next(); err != nil || mp != nil {
+						r.Fail("absent-hit", "%s: absent term yields a hit during a walk (%v)", where, err)
+					}
+				}
 				p, err := it.Next()
 				if err != nil {
 					r.Fail("it-err", "%s: Next: %v", where, err)
@@ -189,11 +207,15 @@ func CheckPostings(r *Report, tag string, seg segment.Segment, m *model.Seg, o P
 				}
 			}
 		}
-		for _, t := range o.AbsentTerms {
+		for ai, t := range o.AbsentTerms {
 			if _, ok := m.Post[f][t]; ok {
 				continue
 			}
-			pl, err := dict.PostingsList([]byte(t), nil, nil)
+			var prePL segment.PostingsList
+			if ai%2 == 0 {
+				prePL = rePL // a list that served an existing term, recycled for an absent one
+			}
+			pl, err := dict.PostingsList([]byte(t), nil, prePL)
 			if err != nil || pl == nil {
 				r.Fail("pl-err", "%s: PostingsList(%q,%s) absent: %v", tag, f, short([]byte(t)), err)
 				continue
